@@ -29,6 +29,12 @@ Definition zinnerprod_k_t_r := @impl_innerprod_k_t Z 0%Z 1%Z Z.add Z.mul.
 (* ttensor.reconstruct AS CALLED (row selection in the model); the 50% container switch evaluated on the coordinate-list kernel's own result *)
 From PV Require Import Model.C02Reconstruct Model.C02Switch.
 Definition zimpl_reconstruct := @impl_reconstruct Z 0%Z Z.add Z.mul.
+(* wave 6: the request test of 9d2314a in front (modes are the caller's integers); zimpl_reconstruct = the body behind the test *)
+Definition zimpl_reconstruct_req := @impl_reconstruct_req Z 0%Z Z.add Z.mul.
+Definition zopt_is (r : option (dense Z)) (T : dense Z) : bool := match r with Some Y => dense_eqb Y T | None => false end.
+Definition zopt_none {A} (r : option A) : bool := match r with None => true | Some _ => false end.
+(* tensor.ttsv "version 2", request test of 0478ea5 = the hypotheses of C02_ttsv_dense: every mode has the size of mode 0 and dnew = skip_dim + 1 <= ndims *)
+Definition zttsv_accepts (s : shape) (dnew : nat) : bool := forallb (Nat.eqb (nth 0 s 0%nat)) s && (dnew <=? length s)%nat.
 Definition zdensify := @densify Z zisz.
 
 (* mttkrp AS CALLED, acceptance: the GENERATED get_mttkrp_factors (list length = ndims, 0 <= n < ndims, equal column counts of the non-skipped
